@@ -12,7 +12,10 @@ import (
 	"io"
 	"math/rand"
 	"os"
+	"os/signal"
 	"runtime"
+	"sync"
+	"syscall"
 	"time"
 
 	"github.com/mgtv-tech/redis-GunYu/config"
@@ -23,12 +26,14 @@ import (
 )
 
 type child struct {
-	p     prf.Params
-	shm   *prf.Shm
-	ch    *syncer.StoreChannel
-	rng   *rand.Rand
-	gcReq chan struct{}
-	gcAck chan struct{}
+	oldLim syscall.Rlimit
+	p      prf.Params
+	shm    *prf.Shm
+	ch     *syncer.StoreChannel
+	rng    *rand.Rand
+	rngMu  sync.Mutex
+	gcReq  chan struct{}
+	gcAck  chan struct{}
 }
 
 func fail(format string, a ...any) {
@@ -50,9 +55,56 @@ func (c *child) phase(ph int64) {
 	c.trigger()
 }
 
-func (c *child) pace() {
-	if c.p.PaceUs > 0 && c.rng.Intn(4) == 0 {
-		time.Sleep(time.Duration(c.rng.Intn(c.p.PaceUs)+1) * time.Microsecond)
+// every feeder has its own PRNG: a closed writer's ingest goroutine may still be inside its
+// feeder while the next writer's feeder is already running
+func (c *child) newRng() *rand.Rand {
+	c.rngMu.Lock()
+	defer c.rngMu.Unlock()
+	return rand.New(rand.NewSource(c.rng.Int63()))
+}
+
+func (c *child) pace(rng *rand.Rand) {
+	if c.p.PaceUs > 0 && rng.Intn(4) == 0 {
+		time.Sleep(time.Duration(rng.Intn(c.p.PaceUs)+1) * time.Microsecond)
+	}
+}
+
+func (c *child) fault(g int) prf.Fault {
+	if g < len(c.p.Faults) {
+		return c.p.Faults[g]
+	}
+	return prf.Fault{}
+}
+
+// setLimit makes the file system refuse every write that would extend a file beyond n bytes
+// (RLIMIT_FSIZE with SIGXFSZ ignored: write(2) stores what fits and then fails with EFBIG).
+func (c *child) setLimit(n int64, kind string) {
+	if n < 0 {
+		n = 0
+	}
+	lim := c.oldLim
+	lim.Cur = uint64(n)
+	if err := syscall.Setrlimit(syscall.RLIMIT_FSIZE, &lim); err != nil {
+		fail("setrlimit: %v", err)
+	}
+	c.shm.Store(prf.SlotFaultLimit, n)
+	c.shm.Store(prf.SlotFaultKind, prf.FaultCode(kind))
+}
+
+func (c *child) restoreLimit() {
+	lim := c.oldLim
+	_ = syscall.Setrlimit(syscall.RLIMIT_FSIZE, &lim)
+}
+
+// faultEvent: a writer has ended after a planned fault - the run ends with an error and the tool
+// backs off (2 s in RedisInput.Run) before it starts over.  The child stays in that back-off until
+// the parent has taken its image of this moment (bounded).
+func (c *child) faultEvent(ph int64) {
+	seq := c.shm.Add(prf.SlotFaultSeq, 1)
+	c.phase(ph)
+	t := time.Now()
+	for c.shm.Load(prf.SlotFaultAck) < seq && time.Since(t) < 300*time.Millisecond {
+		time.Sleep(50 * time.Microsecond)
 	}
 }
 
@@ -85,25 +137,55 @@ func (c *child) gc() {
 }
 
 type rdbFeeder struct {
-	c    *child
-	g    int
-	data []byte
-	pos  int
+	c     *child
+	g     int
+	data  []byte
+	pos   int
+	fault prf.Fault
+	w     syncer.RdbChannelWriter
+	rng   *rand.Rand
 }
 
 func (f *rdbFeeder) Read(p []byte) (int, error) {
 	if f.pos >= len(f.data) {
 		return 0, io.EOF
 	}
-	n := 1 + f.c.rng.Intn(8192)
-	if f.c.rng.Intn(3) == 0 {
-		n = 1 + f.c.rng.Intn(f.c.p.ChunkMax)
+	n := 1 + f.rng.Intn(8192)
+	if f.rng.Intn(3) == 0 {
+		n = 1 + f.rng.Intn(f.c.p.ChunkMax)
 	}
 	if n > len(p) {
 		n = len(p)
 	}
 	if n > len(f.data)-f.pos {
 		n = len(f.data) - f.pos
+	}
+	if f.pos+n == len(f.data) {
+		// the LAST chunk [pos, S) is about to be handed to the writer
+		switch f.fault.Kind {
+		case "rdb-last":
+			lim := int64(f.pos) // nothing of it fits
+			switch a := f.fault.A; {
+			case a < 0.2:
+			case a < 0.4:
+				lim = int64(len(f.data)) - 1
+			default:
+				lim = int64(f.pos) + int64((a-0.4)/0.6*float64(n))
+			}
+			if lim > int64(len(f.data))-1 {
+				lim = int64(len(f.data)) - 1
+			}
+			f.c.setLimit(lim, f.fault.Kind)
+		case "close-last":
+			f.c.shm.Store(prf.SlotFaultKind, prf.FaultCode(f.fault.Kind))
+			w, d := f.w, time.Duration(f.fault.DelayUs)*time.Microsecond
+			go func() {
+				if d > 0 {
+					time.Sleep(d)
+				}
+				w.Close() // what syncRdb does when the run is cancelled / the tool shuts down
+			}()
+		}
 	}
 	copy(p, f.data[f.pos:f.pos+n])
 	f.pos += n
@@ -113,7 +195,7 @@ func (f *rdbFeeder) Read(p []byte) (int, error) {
 	if f.pos == len(f.data) {
 		f.c.phase(prf.PhaseSnapFed)
 	}
-	f.c.pace()
+	f.c.pace(f.rng)
 	return n, nil
 }
 
@@ -125,6 +207,9 @@ type aofFeeder struct {
 	sinceGc  int64
 	segFill  int64
 	ended    bool
+	fault    prf.Fault
+	faulted  *bool
+	rng      *rand.Rand
 }
 
 func (f *aofFeeder) Read(p []byte) (int, error) {
@@ -140,7 +225,14 @@ func (f *aofFeeder) Read(p []byte) (int, error) {
 		f.sinceGc = 0
 		f.c.gc()
 	}
-	n := 1 + f.c.rng.Intn(f.c.p.ChunkMax)
+	if f.fault.Kind == "log" && !*f.faulted {
+		gen := f.c.p.Gens[f.g]
+		if f.off-gen.L >= int64(f.fault.B*float64(gen.Log)) {
+			*f.faulted = true
+			f.c.setLimit(16+int64(f.fault.A*float64(f.c.p.LogSize)), f.fault.Kind)
+		}
+	}
+	n := 1 + f.rng.Intn(f.c.p.ChunkMax)
 	if n > len(p) {
 		n = len(p)
 	}
@@ -157,7 +249,7 @@ func (f *aofFeeder) Read(p []byte) (int, error) {
 	}
 	f.c.shm.Max(prf.GenSlot(f.g, prf.GenAofHanded), f.off)
 	f.c.shm.Add(prf.SlotHandedTotal, int64(n))
-	f.c.pace()
+	f.c.pace(f.rng)
 	return n, nil
 }
 
@@ -172,7 +264,7 @@ func (c *child) sourceIds(g int) []string {
 }
 
 // fullSync mirrors RedisInput.syncMeta/syncData for a FULLRESYNC answer.
-func (c *child) fullSync(g int, startPointDone bool) {
+func (c *child) fullSync(g int, startPointDone bool) (goOn bool) {
 	gen := c.p.Gens[g]
 	c.shm.Store(prf.SlotGen, int64(g))
 	c.phase(prf.PhaseReset)
@@ -194,35 +286,101 @@ func (c *child) fullSync(g int, startPointDone bool) {
 	c.shm.Store(prf.SlotGcEffective, 0)
 	c.shm.Store(prf.GenSlot(g, prf.GenStarted), 1)
 	c.phase(prf.PhaseSnap)
-	rf := &rdbFeeder{c: c, g: g, data: prf.Snapshot(c.p.Seed, g, gen.S)}
+	ft := c.fault(g)
+	rf := &rdbFeeder{c: c, g: g, data: prf.Snapshot(c.p.Seed, g, gen.S), fault: ft, rng: c.newRng()}
 	w, err := c.ch.NewRdbWriter(rf, gen.L, gen.S)
 	if err != nil {
 		fail("NewRdbWriter: %v", err)
 	}
-	w.Start()
-	if err := w.Wait(context.Background()); err != nil {
-		fail("rdb writer: %v", err)
+	rf.w = w
+	switch ft.Kind {
+	case "rdb-first":
+		first := gen.S
+		if first > 8192 {
+			first = 8192
+		}
+		c.setLimit(int64(ft.A*float64(first-1)), ft.Kind)
+	case "rdb-mid":
+		c.setLimit(int64(ft.A*float64(gen.S-1)), ft.Kind)
 	}
+	w.Start()
+	werr := w.Wait(context.Background())
 	w.Close()
+	switch {
+	case ft.Kind == "close-last":
+		// the run was cancelled: syncData still creates the log writer, whose Wait returns at
+		// once on the cancelled context, closes it, and the tool shuts down
+		c.faultEvent(prf.PhaseSnapFail)
+		af := &aofFeeder{c: c, g: g, key: prf.AofKey(c.p.Seed, g), off: gen.L, end: gen.L + gen.Log, faulted: new(bool), rng: c.newRng()}
+		if aw, err := c.ch.NewAofWritter(af, gen.L); err == nil {
+			aw.Start()
+			aw.Close()
+		}
+		return false
+	case werr != nil && ft.Kind != "":
+		// refused write: the run ends with an error; after the back-off the tool starts over and
+		// the source offers a newer snapshot
+		c.restoreLimit()
+		c.faultEvent(prf.PhaseSnapFail)
+		return true
+	case werr != nil:
+		fail("rdb writer: %v", werr)
+	}
+	if ft.Kind != "" && ft.Kind != "log" {
+		c.shm.Store(prf.SlotFaultOk, 1)
+		c.restoreLimit()
+	}
 	c.phase(prf.PhaseSnapDone)
-	c.incrSync(g, gen.L)
+	return c.incrSync(g, gen.L)
 }
 
 // incrSync mirrors the incremental part of syncData: an aof writer at offset, fed until the
 // source closes the connection.
-func (c *child) incrSync(g int, offset int64) {
+func (c *child) incrSync(g int, offset int64) (goOn bool) {
 	gen := c.p.Gens[g]
-	c.phase(prf.PhaseLog)
-	af := &aofFeeder{c: c, g: g, key: prf.AofKey(c.p.Seed, g), off: offset, end: gen.L + gen.Log}
-	aw, err := c.ch.NewAofWritter(af, offset)
-	if err != nil {
-		fail("NewAofWritter: %v", err)
-	}
-	aw.Start()
-	_ = aw.Wait(context.Background()) // "reader error: EOF" when the source closes
-	aw.Close()
-	if !af.ended {
-		fail("aof writer ended before the source closed: offset %d of %d", af.off, af.end)
+	ft := c.fault(g)
+	faulted := new(bool)
+	for {
+		c.phase(prf.PhaseLog)
+		af := &aofFeeder{c: c, g: g, key: prf.AofKey(c.p.Seed, g), off: offset, end: gen.L + gen.Log, fault: ft, faulted: faulted, rng: c.newRng()}
+		aw, err := c.ch.NewAofWritter(af, offset)
+		if err != nil {
+			if *faulted {
+				// not even the new segment's header could be written
+				c.restoreLimit()
+				c.faultEvent(prf.PhaseLogFail)
+				return true
+			}
+			fail("NewAofWritter: %v", err)
+		}
+		aw.Start()
+		_ = aw.Wait(context.Background()) // "reader error: EOF" when the source closes
+		aw.Close()
+		if af.ended {
+			if *faulted {
+				c.restoreLimit()
+			}
+			return true
+		}
+		if !*faulted {
+			fail("aof writer ended before the source closed: offset %d of %d", af.off, af.end)
+		}
+		// refused write: run error, back-off, then the tool asks the cache where it is and the
+		// source continues from there
+		c.restoreLimit()
+		c.faultEvent(prf.PhaseLogFail)
+		ft = prf.Fault{}
+		sp, err := c.ch.StartPoint(c.sourceIds(g))
+		if err != nil {
+			fail("StartPoint(after refused write): %v", err)
+		}
+		if sp.RunId != gen.RunId || prf.GenOf(sp.Offset) != g || sp.Offset < gen.L || sp.Offset > gen.L+gen.Log {
+			return true // nothing usable left: a full sync of the next generation follows
+		}
+		if err := c.ch.SetRunId(gen.RunId); err != nil {
+			fail("SetRunId: %v", err)
+		}
+		offset = sp.Offset
 	}
 }
 
@@ -247,6 +405,10 @@ func main() {
 	if c.shm, err = prf.OpenShm(c.p.Shm, false); err != nil {
 		fail("%v", err)
 	}
+	signal.Ignore(syscall.SIGXFSZ)
+	if err := syscall.Getrlimit(syscall.RLIMIT_FSIZE, &c.oldLim); err != nil {
+		fail("getrlimit: %v", err)
+	}
 	session := c.shm.Add(prf.SlotSession, 1)
 	c.rng = rand.New(rand.NewSource(c.p.Seed*1000003 + session))
 	c.ch = syncer.NewStoreChannel(syncer.StorerConf{InputId: "c08", Dir: c.p.Dir, MaxSize: c.p.MaxSize, LogSize: c.p.LogSize}).(*syncer.StoreChannel)
@@ -259,6 +421,7 @@ func main() {
 	}
 
 	next := 0
+	goOn := true
 	if c.p.Resume {
 		// restart after a kill: the tool asks the cache where it is and continues there when the
 		// source can (it can, inside the generation it is in), otherwise a full sync follows
@@ -273,7 +436,7 @@ func main() {
 			if err := c.ch.SetRunId(gen.RunId); err != nil {
 				fail("SetRunId: %v", err)
 			}
-			c.incrSync(g, sp.Offset)
+			goOn = c.incrSync(g, sp.Offset)
 			next = g + 1
 		} else {
 			next = g
@@ -281,13 +444,13 @@ func main() {
 				next = g + 1 // that snapshot is gone on the source; it offers a newer one
 			}
 			if next < len(c.p.Gens) {
-				c.fullSync(next, true)
+				goOn = c.fullSync(next, true)
 				next++
 			}
 		}
 	}
-	for g := next; g < len(c.p.Gens); g++ {
-		c.fullSync(g, false)
+	for g := next; goOn && g < len(c.p.Gens); g++ {
+		goOn = c.fullSync(g, false)
 	}
 	c.phase(prf.PhaseDone)
 	c.shm.Store(prf.SlotDone, 1)
